@@ -332,11 +332,20 @@ def relabel_rows(table, mode):
     return out
 
 
-def build_table(system, S, E, nv, ints=False):
+CASES = ("lower", "upper", "mixed")     # column spelling: c11 / C11 / only the VANISHING components in upper case
+
+
+def build_table(system, S, E, nv, ints=False, case="lower"):
     import pandas
+    if case not in CASES:
+        raise HarnessError(f"unknown letter case {case}")
+    nvn = set(L.nonvanishing(system))
     data = {"V": volumes(nv, ints)}
     for j in S:
-        data[L.NAMES[j]] = E[j].astype(numpy.int64) if ints else E[j].copy()
+        name = L.NAMES[j]
+        if case == "upper" or (case == "mixed" and j not in nvn):
+            name = name.upper()
+        data[name] = E[j].astype(numpy.int64) if ints else E[j].copy()
     return pandas.DataFrame(data)
 
 
@@ -359,14 +368,18 @@ def with_vanishing(system, S, z):
 
 
 def fill_variants(system, extras):
-    """(nV, row labels, value shape, drop_atol, supplied vanishing zeros) for one subset"""
-    out = [(nv, rows, "smooth", DROPS[0], "none") for nv in NVS for rows in ROWS if not (rows == "reversed" and nv == 1)]
+    """(nV, row labels, value shape, drop_atol, supplied vanishing zeros, letter case) for one subset"""
+    out = [(nv, rows, "smooth", DROPS[0], "none", "lower") for nv in NVS for rows in ROWS if not (rows == "reversed" and nv == 1)]
     if extras:
-        out += [(2, "default", "dip", drop, "none") for drop in DROPS]
-        out += [(nv, "default", "dip", 0.1, "none") for nv in (1, 5)]
-        out += [(2, "default", "smooth", drop, "none") for drop in DROPS[1:]]
+        out += [(2, "default", "dip", drop, "none", "lower") for drop in DROPS]
+        out += [(nv, "default", "dip", 0.1, "none", "lower") for nv in (1, 5)]
+        out += [(2, "default", "smooth", drop, "none", "lower") for drop in DROPS[1:]]
+        out += [(2, "default", "smooth", DROPS[0], "none", "upper")]
         if vanishing(system):
-            out += [(2, "default", "smooth", DROPS[0], z) for z in ("zeros", "zero-one")]
+            out += [(2, "default", "smooth", DROPS[0], z, "lower") for z in ("zeros", "zero-one")]
+            # listed-as-zero vanishing components x letter case
+            out += [(2, "default", "smooth", DROPS[0], "zeros", "upper"), (2, "default", "smooth", DROPS[0], "zeros", "mixed"),
+                    (2, "default", "smooth", DROPS[0], "zero-one", "mixed")]
     return out
 
 
@@ -380,18 +393,20 @@ def run_fill(case):
     nfill = 0
     outcomes = set()
     with scratch_cwd():
-        for nv, rows, shape, drop, z in fill_variants(s, case.get("extras", False)):
+        for nv, rows, shape, drop, z, lcase in fill_variants(s, case.get("extras", False)):
             E = expected_tensor(s, nv, shape=shape)
             S = with_vanishing(s, S0, z)
-            table = relabel_rows(build_table(s, S, E, nv), rows)
+            table = relabel_rows(build_table(s, S, E, nv, case=lcase), rows)
             vin = table["V"].to_numpy().copy()
             nfill += 1
             dev = ([f"rows-{rows}"] if rows != "default" else []) + ([shape] if shape != "smooth" else []) + \
-                  ([f"drop{drop:g}"] if drop != DROPS[0] else []) + ([f"z-{z}"] if z != "none" else [])
+                  ([f"drop{drop:g}"] if drop != DROPS[0] else []) + ([f"z-{z}"] if z != "none" else []) + \
+                  ([f"case-{lcase}"] if lcase != "lower" else [])
             tag = ":".join(["c08:fill"] + dev)
             kw = {} if drop == DROPS[0] else {"drop_atol": drop}
             note = f" row labels {list(table.index)}" + (f" value shape {shape}" if shape != "smooth" else "") + \
-                   (f" drop_atol={drop}" if kw else "") + (f" with vanishing components supplied as 0 ({z})" if z != "none" else "")
+                   (f" drop_atol={drop}" if kw else "") + (f" with vanishing components supplied as 0 ({z})" if z != "none" else "") + \
+                   (f" columns {list(table.columns)}" if lcase != "lower" else "")
             try:
                 res = fill_cij(table.copy(), s, **kw)
             except BaseException as ex:
@@ -417,6 +432,7 @@ def run_elastdata(case):
     from collections import OrderedDict
     s, nv, mask = case["system"], case["nv"], case["mask"]
     z, shape, drop = case.get("z", "none"), case.get("shape", "smooth"), case.get("drop", DROPS[0])
+    keyorder = case.get("keyorder", "same")
     S = L.mask_to_subset(s, mask)
     if not L.is_sufficient(s, S):
         raise HarnessError(f"{s}: mask {mask} is not sufficient")
@@ -428,9 +444,10 @@ def run_elastdata(case):
         symmetry.update(DEFAULT_SYMMETRY)
     if drop != DROPS[0]:
         symmetry["drop_atol"] = drop
-    data = make_elastdata(S, E, vol)
+    data = make_elastdata(S, E, vol, keyorder)
     viol = []
     tag = (f"apply_symetry_on_elast_data(ElastData[{','.join(names(S))}] x {nv} volumes, {symmetry})"
+           + (f" per-volume key order {keyorder}: {[names(key_order(S, i, keyorder))[:3] for i in range(nv)]}..." if keyorder != "same" else "")
            + (f" value shape {shape}" if shape != "smooth" else "") + (f" vanishing components listed as 0 ({z})" if z != "none" else ""))
     with scratch_cwd():
         try:
@@ -444,17 +461,33 @@ def run_elastdata(case):
         data = ret       # tolerate a functional variant
     check_elastdata(data, s, S, E, vol, tag, viol, "c08:elastdata", drop=drop)
     return {"viol": dedupe(viol), "outcome": f"elastdata:{s}:{'ok' if not viol else 'wrong'}",
-            "key": f"elastdata:{s}:{mask}:{nv}:{case['full_keys']}:{z}:{shape}:{drop}"}
+            "key": f"elastdata:{s}:{mask}:{nv}:{case['full_keys']}:{z}:{shape}:{drop}:{keyorder}"}
 
 
-def make_elastdata(S, E, vol):
+KEYORDERS = ("same", "alt-reversed", "rotated")
+
+
+def key_order(S, i, keyorder):
+    """insertion order of the component keys in the dict of volume i (same key SET at every volume)"""
+    S = list(S)
+    if keyorder == "same" or not S:
+        return S
+    if keyorder == "alt-reversed":
+        return S[::-1] if i % 2 else S
+    if keyorder == "rotated":
+        k = i % len(S)
+        return S[k:] + S[:k]
+    raise HarnessError(f"unknown key order {keyorder}")
+
+
+def make_elastdata(S, E, vol, keyorder="same"):
     from cij.io.traditional.elast_dat import ElastData, ElastVolumeData
     from cij.util import c_
     from collections import OrderedDict
     nv = len(vol)
     data = ElastData(float(vol[0]), nv, 120.5, [], [])
     for i in range(nv):
-        data.volumes.append(ElastVolumeData(float(vol[i]), OrderedDict((c_(*L.PAIRS21[j]), float(E[j, i])) for j in S)))
+        data.volumes.append(ElastVolumeData(float(vol[i]), OrderedDict((c_(*L.PAIRS21[j]), float(E[j, i])) for j in key_order(S, i, keyorder))))
     return data
 
 
@@ -503,7 +536,8 @@ HISTORY_OPS = ("A1", "A2", "B1", "F")     # apply(dictA, table1), apply(dictA, t
 def run_history(case):
     """One history of applications sharing the settings dict objects dictA and dictB.  table1 = the minimal
     sufficient set + the first vanishing component listed as 0 (2 volumes, float parameters), table2 = all 21
-    components, the vanishing ones as 0 (3 volumes, the integer-valued parameter set): fresh data objects for every operation, only the settings objects are shared."""
+    components, the vanishing ones as 0 (3 volumes, the integer-valued parameter set); the per-volume dicts of table1
+    list their keys reversed at odd volumes, those of table2 rotated by k at volume k: fresh data objects for every operation, only the settings objects are shared."""
     from cij.io.traditional.elast_dat import apply_symetry_on_elast_data
     from cij.util.fill import fill_cij
     s, hist = case["system"], case["history"]
@@ -531,7 +565,7 @@ def run_history(case):
                 else:
                     S, E, vol = (S2, E2, vol2) if op == "A2" else (S1, E1, vol1)
                     settings = dictB if op == "B1" else dictA
-                    data = make_elastdata(S, E, vol)
+                    data = make_elastdata(S, E, vol, "rotated" if op == "A2" else "alt-reversed")
                     ret = apply_symetry_on_elast_data(data, settings)      # the shared object itself
                     if ret is not None and ret is not data:
                         data = ret
@@ -676,6 +710,14 @@ def explore(ctx):
                     if vanishing(s):      # the input lists vanishing components explicitly, as zeros
                         for z in ("zeros", "zero-one"):
                             cases.append({"kind": "elastdata", "system": s, "mask": mask, "nv": nv, "full_keys": fk, "z": z})
+                # per-volume dict key order (same key set, different insertion order at different volumes)
+                if nv > 1:
+                    for ko in KEYORDERS[1:]:
+                        for z in (("none", "zeros") if vanishing(s) else ("none",)):
+                            c = {"kind": "elastdata", "system": s, "mask": mask, "nv": nv, "full_keys": False, "keyorder": ko}
+                            if z != "none":
+                                c["z"] = z
+                            cases.append(c)
                 # value shape x drop_atol through the settings dict
                 for drop in DROPS:
                     cases.append({"kind": "elastdata", "system": s, "mask": mask, "nv": nv, "full_keys": False, "shape": "dip", "drop": drop})
@@ -689,6 +731,8 @@ def explore(ctx):
             transitions=sum(len(c["history"]) for c in cases))
     ctx.notes["history_alphabet"] = {"ops": list(HISTORY_OPS), "depth": depth, "histories_per_system": len(cases) // len(L.SYSTEMS)}
     ctx.notes["row_label_alphabet"] = list(ROWS)
+    ctx.notes["letter_case_alphabet"] = list(CASES)
+    ctx.notes["per_volume_key_order_alphabet"] = list(KEYORDERS)
 
 
 def selftest():
